@@ -191,6 +191,15 @@ def generate(tier, seed):
                     yield {'n': n, 'split': split, 'obj': obj, 'cons': cons, 'bounds': 'scalar', 'move': 'persignal',
                            'start': 'mixed', 'version': ver, 'asy': 'default', 'table': table, 'callback': 'passive',
                            'maxit': 8}
+    # at least as many constraints as variables (m = 3 >= n), starting inside and outside the feasible set
+    yield {'__level__': 'as many constraints as variables'}
+    for n in (1, 2, 3):
+        for obj in R.OBJECTIVES + ['linpos']:
+            for start in ('lower', 'mixed', 'upper'):
+                for ver in R.VERSIONS:
+                    for bk in (('scalar',) if tier == 'quick' else ('scalar', 'pervar')):
+                        yield {'n': n, 'split': 'one_array', 'obj': obj, 'cons': 'rec3', 'bounds': bk, 'move': 'scalar',
+                               'start': start, 'version': ver, 'asy': 'default', 'table': table}
     yield {'__level__': 'min-max with scaled constraints (all value tables)'}
     for tb in range(R.NTABLES):
         for n in ((2, 3, 5) if tier == 'quick' else (2, 3, 5, 6, 8)):
@@ -314,7 +323,14 @@ def execute(case):
                    c=np.array(c, float), d=np.array(d, float), x0=None if x0 is None else np.array(x0, float))
         work[0] = 0
         pos = buf.tell()
-        ret = orig(epsimin, low, upp, alfa, beta, P, Q, a0, a, b, c, d, x0=x0)
+        try:
+            ret = orig(epsimin, low, upp, alfa, beta, P, Q, a0, a, b, c, d, x0=x0)
+        except _Truncate:
+            # cut off by the cost guard; if the solver had already reported its iteration cap in this call, the call is
+            # a (heavier) instance of the same stall and is reported like a capped call that returned
+            if 'MMA Subsolver' in buf.getvalue()[pos:]:
+                stalled.append(len(subs))
+            raise
         capped = 'MMA Subsolver' in buf.getvalue()[pos:]
         retc = tuple(np.array(r, float) for r in ret)
         res = _kkt_or_none(arg, retc)
@@ -326,6 +342,7 @@ def execute(case):
         return ret
 
     cbs_pre = []
+    stalled = []
 
     def callback():
         cbs_pre.append([np.array(s.state) for s in sigs])
@@ -384,6 +401,10 @@ def execute(case):
     if sigkind == 'slice':
         rest = np.asarray(basesig.state)[[0, n + 1, n + 2]]
         chk(np.array_equal(rest, [9.0, 7.0, 5.0]), 'entries_outside_the_variable_slice_changed', {}, got=rest)
+    if stalled:
+        chk(False, 'subproblem_kkt', {'cause': 'newton_iteration_cap', 'input': input_id(case)}, iteration=stalled[0],
+            note='the sub-problem call reported its Newton iteration cap and was cut off by the cost guard '
+                 f'({WORK_LIMIT} residual evaluations) before it returned')
     nit = len(subs)
     pending = 1 if truncated[0] == 'work limit' else 0   # the call that was cut off has no record
     chk(len(cbs) == nit + pending and len(seen) == nit + pending and len(cbs) >= 1, 'schedule', {},
